@@ -284,8 +284,10 @@ def ev(t, env, st):
             raise Undef()
     if k == 9:
         a, b = ev(t[2], env, st), ev(t[3], env, st)
+        if isinstance(a, bool) and isinstance(b, bool) and t[1] in (0, 1):
+            return (a == b) if t[1] == 0 else (a != b)      # equality of truth values (iff / xor)
         if isinstance(a, bool) or isinstance(b, bool):
-            raise Undef()     # ill-sorted: a relation between truth values has no meaning here
+            raise Undef()     # ill-sorted: ordering truth values, or comparing a truth value with a number
         if abs(a - b) <= 1e-9 * max(1.0, st['scale']):
             raise Undef()     # too close to call in floating point
         return [a == b, a != b, a < b, a <= b, a > b, a >= b][t[1]]
@@ -318,6 +320,8 @@ def ev(t, env, st):
 def well_sorted(t):
     """numbers where numbers are expected, truth values where truth values are expected (the property's scope)"""
     k = t[0]
+    if k == 9 and t[1] in (0, 1) and all(c[0] in (9, 10, 11, 12) for c in t[2:]):
+        return all(well_sorted(c) for c in t[2:])      # Eq / Ne of two truth values
     if k in (4, 5, 6, 7, 9):
         ch = t[2:] if k in (7, 9) else t[1:]
         return all(c[0] not in (9, 10, 11, 12) and well_sorted(c) for c in ch)
@@ -333,13 +337,17 @@ def has_factorial(t):
     return any(s[0] == 7 and s[1] == bridge.FN_IDS['factorial'] for s in subtrees(t))
 
 
+def has_nested_relation(t):
+    return any(s[0] == 9 and any(c[0] in (9, 10, 11, 12) for c in s[2:]) for s in subtrees(t))
+
+
 def points(case_key, t):
     rng = random.Random('pt' + case_key)
     out = []
-    for j in range(3):
+    for j in range(10 if has_nested_relation(t) else 3):
         if has_factorial(t):
             out.append([rng.randint(0, 5) for _ in range(NV + 2)])
-        elif j == 2:
+        elif j % 3 == 2:
             out.append([rng.choice([0.25, 0.5, 0.75, 1.25, 1.5, 2.0, 3.0]) for _ in range(NV + 2)])
         else:
             out.append([round(rng.choice([-1, 1, 1]) * rng.uniform(0.2, 2.9), 3) for _ in range(NV + 2)])
@@ -673,6 +681,31 @@ def bool_cases():
     return out
 
 
+def relrel_cases():
+    """relations whose operands are relations / truth values: 6 x 6 kinds x (left, right, both), constants, and the
+    same inside and / or / piecewise conditions.  Eq / Ne of two truth values is well-sorted (value-checked);
+    an inequality over truth values is not (SymPy itself refuses to build it evaluated): correspondence only."""
+    out = []
+    for p in range(6):
+        for c in range(6):
+            inner, other = Rel(c, X, Y), Rel(c, Z, W)
+            for c2 in range(6):
+                out.append(('relrel:%d:%d:both%d' % (p, c, c2), Rel(p, inner, Rel(c2, Z, W))))
+            out.append(('relrel:%d:%d:l' % (p, c), Rel(p, inner, Z)))
+            out.append(('relrel:%d:%d:r' % (p, c), Rel(p, Z, inner)))
+            for cname, cst in (('T', TRUE), ('F', FALSE)):
+                out.append(('relrel:%d:%d:l%s' % (p, c, cname), Rel(p, inner, cst)))
+                out.append(('relrel:%d:%d:r%s' % (p, c, cname), Rel(p, cst, inner)))
+            if p in (0, 1):
+                nest = Rel(p, inner, other)
+                out.append(('relrel:%d:%d:and' % (p, c), And(nest, Rel(2, X, W))))
+                out.append(('relrel:%d:%d:or' % (p, c), Or(Rel(4, Y, Z), nest)))
+                out.append(('relrel:%d:%d:pw' % (p, c), Pw((X, nest), (Y, TRUE))))
+                out.append(('relrel:%d:%d:deep' % (p, c), Rel(1 - p, Rel(p, inner, other), Rel(c, Y, Z))))
+                out.append(('relrel:%d:%d:andop' % (p, c), Rel(p, And(inner, Rel(2, X, W)), Or(other, Rel(3, Y, X)))))
+    return out
+
+
 def fn_cases():
     out = []
     for f in UNARY_FNS:
@@ -743,6 +776,9 @@ def gen_cases(seed, tier, extra=0):
     for name, t in fn_cases():
         for evf in (False, True):
             cases.append({'tree': t, 'ev': evf, 'kind': 'function'})
+    for name, t in relrel_cases():
+        for evf in (False, True):
+            cases.append({'tree': t, 'ev': evf, 'kind': 'relrel'})
     rng = random.Random(seed * 1000003 + 11 + extra)
     n = (3000 if tier == 'quick' else 150000) * (4 if extra and tier == 'quick' else 1)
     for i in range(n):
